@@ -2874,6 +2874,85 @@ func ruleLoggedMappingEqualsSet(r *Run) {
 			continue
 		}
 		k := 0
+		// the literal may be built by a helper that logs it (logMappedSet(d, v, mutID, label, set)): the helper's
+		// parameters stored into Mapped and Original stand for the literal's fields at each call
+		for _, c := range calls(f) {
+			g := staticCallee(c)
+			if g == nil || g == f || len(g.Blocks) == 0 || relPkg(pkgPathOf(g)) != "datatype/labelmap" {
+				continue
+			}
+			pm, po := -1, -1
+			logs := false
+			for _, gc := range calls(g) {
+				if callee := staticCallee(gc); callee != nil && callee.Name() == "LogMapping" {
+					logs = true
+				}
+			}
+			if !logs {
+				continue
+			}
+			for _, gb := range g.Blocks {
+				for _, gin := range gb.Instrs {
+					st, ok := gin.(*ssa.Store)
+					if !ok {
+						continue
+					}
+					fa, ok := st.Addr.(*ssa.FieldAddr)
+					if !ok || !typeIs(fa.X.Type(), "datatype/common/labels", "MappingOp") {
+						continue
+					}
+					nm, _, _ := fieldName(fa)
+					for i, prm := range g.Params {
+						if stripConv(st.Val) == ssa.Value(prm) {
+							if nm == "Mapped" {
+								pm = i
+							}
+							if nm == "Original" {
+								po = i
+							}
+						}
+					}
+				}
+			}
+			if pm < 0 || po < 0 || len(c.Common().Args) != len(g.Params) {
+				continue
+			}
+			mapped := c.Common().Args[pm]
+			var keys []ssa.Value
+			for _, rv := range roots(c.Common().Args[po], f) {
+				mk, ok := rv.V.(*ssa.MakeMap)
+				if !ok {
+					continue
+				}
+				for _, ref3 := range *mk.Referrers() {
+					if mu, ok := ref3.(*ssa.MapUpdate); ok && mu.Map == ssa.Value(mk) {
+						keys = append(keys, mu.Key)
+					}
+				}
+			}
+			for _, key := range keys {
+				for _, s := range sets {
+					sameKey := stripConv(s.key) == stripConv(key)
+					if n1, ok1 := fieldSel(s.key); ok1 {
+						if n2, ok2 := fieldSel(key); ok2 && n1 == n2 {
+							sameKey = true
+						}
+					}
+					if !sameKey {
+						continue
+					}
+					n++
+					k++
+					same := stripConv(s.label) == stripConv(mapped) || sameRoots(s.label, mapped, f)
+					r.check(same, fmt.Sprintf("%s:logged-mapping#%d", fname(f), k), "the logged label is the label set in memory",
+						"a supervoxel is mapped to one label in memory and logged with another: the mapping is right until the next restart and wrong after it (replay follows the log)", w.pos(c.Pos()))
+					logCall := c.(ssa.Instruction)
+					pth := findPath(f, s.call, func(x ssa.Instruction) bool { return x == logCall }, successExit, nil)
+					r.check(pth == nil, fmt.Sprintf("%s:logged-mapping#%d:on-every-success-path", fname(f), k), "every success return behind the in-memory mapping lies behind its log entry",
+						"a success return can be reached from the in-memory mapping of this supervoxel without the call that logs it: the running server answers with the mapping, the restarted one — which rebuilds the mapping from the log — does not", w.pos(s.call.Pos()), w.renderPath(pth)...)
+				}
+			}
+		}
 		// MappingOp literals: stores into the Mapped field of a local MappingOp, with the set stored into Original
 		for _, b := range f.Blocks {
 			for _, in := range b.Instrs {
@@ -2985,42 +3064,45 @@ func ruleNoZeroCountStored(r *Run) {
 		return
 	}
 	n := 0
-	for _, b := range f.Blocks {
-		for _, in := range b.Instrs {
-			mu, ok := in.(*ssa.MapUpdate)
-			if !ok || !isFieldLoad(mu.Map, "SVCount", "Counts") {
-				continue
-			}
-			// a count computed by arithmetic (old + delta)
-			computed := false
-			for d := range dataDeps(mu.Value) {
-				if bo, ok := d.(*ssa.BinOp); ok && (bo.Op == token.ADD || bo.Op == token.SUB) {
-					computed = true
-				}
-			}
-			if !computed {
-				continue
-			}
-			n++
-			guarded := false
-			for _, b2 := range f.Blocks {
-				ifi, isIf := b2.Instrs[len(b2.Instrs)-1].(*ssa.If)
-				if !isIf {
+	top := f
+	for _, f := range withHelpers(top) {
+		for _, b := range f.Blocks {
+			for _, in := range b.Instrs {
+				mu, ok := in.(*ssa.MapUpdate)
+				if !ok || !isFieldLoad(mu.Map, "SVCount", "Counts") {
 					continue
 				}
-				bo, isBo := ifi.Cond.(*ssa.BinOp)
-				if !isBo || stripConv(bo.X) != stripConv(mu.Value) {
+				// a count computed by arithmetic (old + delta)
+				computed := false
+				for d := range dataDeps(mu.Value) {
+					if bo, ok := d.(*ssa.BinOp); ok && (bo.Op == token.ADD || bo.Op == token.SUB) {
+						computed = true
+					}
+				}
+				if !computed {
 					continue
 				}
-				if z, ok := constInt(bo.Y); !ok || z != 0 {
-					continue
+				n++
+				guarded := false
+				for _, b2 := range f.Blocks {
+					ifi, isIf := b2.Instrs[len(b2.Instrs)-1].(*ssa.If)
+					if !isIf {
+						continue
+					}
+					bo, isBo := ifi.Cond.(*ssa.BinOp)
+					if !isBo || stripConv(bo.X) != stripConv(mu.Value) {
+						continue
+					}
+					if z, ok := constInt(bo.Y); !ok || z != 0 {
+						continue
+					}
+					if bo.Op == token.EQL && guardedByEdge(ifi, 1, mu) || bo.Op == token.NEQ && guardedByEdge(ifi, 0, mu) || bo.Op == token.GTR && guardedByEdge(ifi, 0, mu) {
+						guarded = true
+					}
 				}
-				if bo.Op == token.EQL && guardedByEdge(ifi, 1, mu) || bo.Op == token.NEQ && guardedByEdge(ifi, 0, mu) || bo.Op == token.GTR && guardedByEdge(ifi, 0, mu) {
-					guarded = true
-				}
+				r.check(guarded, fmt.Sprintf("ModifyBlocks:computed-count-store#%d", n), "stored only where it is not zero",
+					"a count computed from a delta is stored without the zero case having been taken out: a supervoxel whose last voxel in the block was overwritten stays in the body's index with count 0 — it is still listed among the body's supervoxels and can be cleaved into a body of no voxels", w.pos(mu.Pos()))
 			}
-			r.check(guarded, fmt.Sprintf("ModifyBlocks:computed-count-store#%d", n), "stored only where it is not zero",
-				"a count computed from a delta is stored without the zero case having been taken out: a supervoxel whose last voxel in the block was overwritten stays in the body's index with count 0 — it is still listed among the body's supervoxels and can be cleaved into a body of no voxels", w.pos(mu.Pos()))
 		}
 	}
 	r.check(n >= 1, "ModifyBlocks:computed-count-stores", fmt.Sprintf("%d", n), "no computed count store found: rule needs review", w.fpos(f))
@@ -6456,6 +6538,30 @@ func paramCellOf(v ssa.Value) *ssa.Parameter {
 		}
 	}
 	return nil
+}
+
+// withHelpers: f and the unexported functions of f's package that f calls statically (two levels): the shape a
+// rule looks for may have been moved into a helper of the anchor function.
+func withHelpers(f *ssa.Function) []*ssa.Function {
+	out := []*ssa.Function{f}
+	seen := map[*ssa.Function]bool{f: true}
+	frontier := []*ssa.Function{f}
+	for depth := 0; depth < 2; depth++ {
+		var next []*ssa.Function
+		for _, g := range frontier {
+			for _, c := range calls(g) {
+				h := staticCallee(c)
+				if h == nil || seen[h] || len(h.Blocks) == 0 || h.Pkg == nil || h.Pkg != f.Pkg || h.Object() == nil || h.Object().Exported() {
+					continue
+				}
+				seen[h] = true
+				out = append(out, h)
+				next = append(next, h)
+			}
+		}
+		frontier = next
+	}
+	return out
 }
 
 func closureTree(f *ssa.Function) []*ssa.Function {
@@ -11752,6 +11858,32 @@ func ruleBlockMappingWalksTable(r *Run) {
 	var heads []ssa.Instruction
 	for h := range scanLoops(f) {
 		heads = append(heads, h.Instrs[0])
+	}
+	if len(heads) == 0 {
+		// the walk may be delegated: a call of a repository function all of whose returns lie behind its own
+		// loop over the label table counts as the scan
+		for _, c := range calls(f) {
+			g := staticCallee(c)
+			if g == nil || len(g.Blocks) == 0 || !inRepo(g) {
+				continue
+			}
+			gl := scanLoops(g)
+			if len(gl) == 0 {
+				continue
+			}
+			isGHead := func(x ssa.Instruction) bool {
+				for h := range gl {
+					if x == h.Instrs[0] {
+						return true
+					}
+				}
+				return false
+			}
+			anyRet := func(x ssa.Instruction) bool { _, ok := x.(*ssa.Return); return ok }
+			if findPath(g, nil, isGHead, anyRet, nil) == nil {
+				heads = append(heads, c)
+			}
+		}
 	}
 	if len(heads) == 0 {
 		r.violation("modifyBlockMapping:table-scan", "no loop over the block's label table found", w.fpos(f))
